@@ -202,7 +202,7 @@ Definition encodable (dist_of : Z -> list PCP -> option F64 -> outcome F64) (h :
    ([sample_ok]), start + duration within the parse limits (class D26), the computed
    length of a slider without explicit length (class D21), the classes D13 / D17 /
    consecutive Catmull. *)
-Definition line_image (h : HitObject) : bool :=
+Definition object_image (h : HitObject) : bool :=
   in_lim64 (h_start h) &&
   match h_kind h with
   | KCircle c => coord_ok (px (ci_pos c)) && coord_ok (py (ci_pos c)) &&
